@@ -1506,6 +1506,35 @@ def case_numberlike_tokens(ctx, lo, hi):
     run_batch(ctx, ("numberlike", lo), cmds, 1)
 
 
+GRAPH_WORDS = ["simple", "dag", "digraph", "bipartite", "graph", "kthlist", "gml", "dot", "dimacs", "matrix", "gnp", "gnm", "gnd", "grid", "torus",
+               "complete", "empty", "glrp", "glrm", "glrd", "regular", "shift", "path", "tree", "pyramid", "plantclique", "plantbiclique",
+               "addedges", "splitedges", "save", "autodetect", "-", "--", "file", "stdin", "none", "None", "0", "1"]
+
+
+def case_words_after_a_graph(ctx, lo, hi):
+    """A complete graph argument (file, format + file, construction; also inside -T xorcomp) followed or preceded by
+    every word the graph grammar knows -- type names, format names, constructions, options: a formula or a shielded
+    error, never a traceback."""
+    frames = []
+    for lead, specs in ((["kcolor", "2"], [["@simple.gml"], ["gml", "@simple.gml"], ["@simple.kthlist"], ["@missing.gml"], ["gml", "@missing"],
+                                           ["gnp", "4", ".5"], ["complete", "3"], ["complete", "3", "addedges", "0"]]),
+                        (["php"], [["@bip.matrix"], ["matrix", "@bip.matrix"], ["kthlist", "@bip.kthlist"], ["glrd", "3", "3", "1"], ["@missing.matrix"]]),
+                        (["peb"], [["@dag.kthlist"], ["kthlist", "@dag.kthlist"], ["pyramid", "2"], ["@missing.kthlist"]]),
+                        (["php", "3", "2", "-T", "xorcomp"], [["complete", "6", "2"], ["matrix", "@missing"], ["glrd", "6", "3", "2"]])):
+        for spec in specs:
+            frames.append((lead, spec))
+    cmds = []
+    for lead, spec in frames:
+        for w in GRAPH_WORDS:
+            for argv in (lead + spec + [w], lead + [w] + spec, lead + spec[:1] + [w] + spec[1:]):
+                for tool in ("cnfgen", "pbgen") if "-T" not in lead else ("cnfgen",):
+                    cmds.append({"tool": tool, "argv": list(argv), "stdin": "empty", "ops": ["word-next-to-graph"],
+                                 "files": ["missing"] if any("missing" in t for t in argv) else [], "gen": "graphwords"})
+    cmds = cmds[lo:hi]
+    ctx.count("words_next_to_a_graph_argument", len(cmds))
+    run_batch(ctx, ("graphwords", lo), cmds, 1)
+
+
 def case_long_command_lines(ctx):
     """Valid command lines of 500 to 4000 characters (they are echoed in the header of the formula, one long comment line)."""
     cmds = []
@@ -1520,6 +1549,51 @@ def case_long_command_lines(ctx):
                          "files": [], "gen": "long"})
     ctx.count("long_command_lines", len(cmds))
     run_batch(ctx, ("long-command-lines", 0), cmds, 2)
+
+
+def case_optimized_interpreters(ctx, lo, hi):
+    """One valid command line per sub-command (and per output format for a few), run as real processes under
+    `python -OO` (no asserts, no docstrings) and `python -O`: the tools must print what they print otherwise."""
+    oc.selfcheck()
+    seen, cmds = set(), []
+    for sub, a in argvcorpus.small(randomized=False):
+        if sub in seen:
+            continue
+        seen.add(sub)
+        cmds.append(("cnfgen", list(a)))
+        cmds.append(("pbgen", list(a)))
+    for pre in (["-of", "latex"], ["-of", "opb"], ["-v", "--varnames"]):
+        for b in (["php", "3", "2"], ["peb", "pyramid", "1"], ["stone", "2", "path", "2"], ["op", "3"], ["tseitin", "first", "grid", "2", "2"]):
+            cmds.append(("cnfgen", pre + b))
+    cmds.append(("cnfshuffle", ["-S", "5"]))
+    cmds.append(("kthlist2pebbling", []))
+    cmds.append(("kthlist2pebbling", ["xor", "2"]))
+    zoo = Zoo()
+    try:
+        for i, (tool, argv) in enumerate(cmds[lo:hi]):
+            stdin_kind = "cnf" if tool == "cnfshuffle" else "kthlist" if tool == "kthlist2pebbling" else "empty"
+            if any(t.startswith("@") for t in argv):
+                continue
+            base = spawn(tool, zoo.render(argv), STDIN[stdin_kind], cwd=zoo.root, env=SPAWN_ENV, timeout=120)
+            for flag in ("-OO", "-O") if i % 3 == 0 else ("-OO",):
+                o = spawn(tool, zoo.render(argv), STDIN[stdin_kind], cwd=zoo.root, env=SPAWN_ENV, timeout=120, pyflags=[flag])
+                ctx.count("optimized_interpreter_runs")
+                label = "python %s: %s %s" % (flag, tool, " ".join(argv))
+                if oc.TRACEBACK in o.err:
+                    et = o.err.strip().split("\n")[-1].split(":")[0]
+                    ctx.violation("%s:python%s:unhandled:%s" % (tool, flag, et), "%s terminates through an unhandled exception: %r" % (label, o.err[-300:]),
+                                  tool=tool, argv=argv)
+                elif o.rc != base.rc:
+                    ctx.violation("%s:python%s:another-exit-status" % (tool, flag), "%s exits with %r, the ordinary interpreter with %r; stderr %r"
+                                  % (label, o.rc, base.rc, o.err[-200:]), tool=tool, argv=argv)
+                elif base.rc == 0 and oc.lines_of(o.out)[:0] == [] and \
+                        [l for l in o.out.splitlines() if not l.startswith(("c ", "c", "*", "%"))] != [l for l in base.out.splitlines() if not l.startswith(("c ", "c", "*", "%"))] \
+                        and "latex" not in argv:
+                    ctx.violation("%s:python%s:another-formula" % (tool, flag), "%s prints other non-comment lines than the ordinary interpreter" % label,
+                                  tool=tool, argv=argv)
+                ctx.judged((tool, tuple(argv), flag), nontrivial=True, sample={"command": label, "status": o.rc})
+    finally:
+        zoo.close()
 
 
 def case_outside_git_tree(ctx):
@@ -1892,6 +1966,10 @@ def workload(tier, seed):
     yield "unseekable", {}
     yield "streams", {}
     yield "witnesses", {}          # first: the minimal command line of a mechanism becomes its replay
+    for lo in range(0, 100, 12):
+        yield "optimized_interpreters", {"lo": lo, "hi": lo + 12}
+    for lo in range(0, 4800, 400):
+        yield "words_after_a_graph", {"lo": lo, "hi": lo + 400}
     for lo in range(0, 2400, 300):
         yield "numberlike_tokens", {"lo": lo, "hi": lo + 300}
     n_grammar, n_mut, n_fil = (2700, 2400, 600) if quick else (33000, 33000, 6000)
